@@ -113,39 +113,50 @@ def read_mark(ctx):
 
 
 def g2(ctx):
+    """what maintenance hands to the planner: the values pushed onto the candidate list (entry constructors looked
+    through, so it does not matter whether the entry is built by a constructor function or by a struct literal)."""
     out = []
     imp, res, ctors = read_mark(ctx)
-    if not ctors:
-        return [inst('G2', 'constructor', False, 'no constructor of %s found' % imp['self_ty_s'])]
-    for ck in ctors:
-        q = ctx.explore(ck, opaque='none')
-        for t in q.terminals(lambda ev: ev['k'] == 'ret'):
-            v = q.g.term[t]['val']
-            if VAL[v][0] != 'agg':
-                out.append(inst('G2', ctx.B[ck]['path'], False, 'constructor does not build the entry field by field'))
-                continue
-            fields = VAL[v][3:]
-            rk = res['rank']
-            ok_r = len(rk) == 1 and isinstance(next(iter(rk)), int)
-            if ok_r:
-                fv = fields[next(iter(rk))]
-                tfv = VAL[fv]
-                ok_r = tfv[0] == 'sym' and tfv[1] == 'app' and tfv[2] in ('filetime::FileTime::from_last_modification_time', 'std::fs::Metadata::modified')
-            out.append(inst('G2', 'rank is the modification time', ok_r, 'rank() = mtime of the entry\'s metadata' if ok_r else
-                            'rank() is not the entry\'s modification time (%s)' % (show(fields[next(iter(rk))], 3) if rk and isinstance(next(iter(rk)), int) else rk)))
-            ac = res['accessed']
-            ok_a = len(ac) == 1 and isinstance(next(iter(ac)), int)
-            tab = None
-            if ok_a:
-                fv = fields[next(iter(ac))]
-                tab, metas = ordering_table(VAL[fv])
-                ok_a = tab == {-1: False, 0: True, 1: True} and metas is not None and len(metas) == 1
-            out.append(inst('G2', 'accessed is atime >= mtime', ok_a, 'accessed() is true exactly for atime = mtime and atime > mtime (same metadata)' if ok_a else
-                            'the read mark is not "atime >= mtime": truth table over (<,=,>) is %s' % (tab,)))
-            # both derive from the metadata passed together with the directory entry kept in the candidate
-            body = ctx.B[ck]
-            out.append(inst('G2', 'entry and times belong together', any(VAL[f][0] == 'sym' and VAL[f][1] == 'param' for f in fields if f is not None),
-                            'the candidate keeps the directory entry it was built from'))
+    k = ctx.helper('raw_cache::prune')
+    q = ctx.explore(k, opaque=set(ctx.pure) - set(ctors), tag='g2ctor')
+    B, _sites = c17.candidate_push_edges(ctx, q)
+    vals = set()
+    for e in B:
+        ev = q.E[e][2]
+        if len(ev['args']) > 1 and ev['args'][1] is not None:
+            vals.add(ev['args'][1])
+    if not vals:
+        return [inst('G2', 'constructor', False, 'no %s value is pushed onto the planner\'s candidate list' % imp['self_ty_s'])]
+    for v in sorted(vals):
+        if VAL[v][0] != 'agg':
+            out.append(inst('G2', 'candidate value', False, 'the candidate entry is not built field by field (%s)' % show(v, 2)))
+            continue
+        fields = VAL[v][3:]
+        rk = res['rank']
+        ok_r = len(rk) == 1 and isinstance(next(iter(rk)), int)
+        if ok_r:
+            fv = fields[next(iter(rk))]
+            tfv = VAL[fv]
+            ok_r = tfv[0] == 'sym' and tfv[1] == 'app' and tfv[2] in ('filetime::FileTime::from_last_modification_time', 'std::fs::Metadata::modified')
+        out.append(inst('G2', 'rank is the modification time', ok_r, 'rank() = mtime of the entry\'s metadata' if ok_r else
+                        'rank() is not the entry\'s modification time (%s)' % (show(fields[next(iter(rk))], 3) if rk and isinstance(next(iter(rk)), int) else rk)))
+        ac = res['accessed']
+        ok_a = len(ac) == 1 and isinstance(next(iter(ac)), int)
+        tab = None
+        if ok_a:
+            fv = fields[next(iter(ac))]
+            tab, metas = ordering_table(VAL[fv])
+            ok_a = tab == {-1: False, 0: True, 1: True} and metas is not None and len(metas) == 1
+        out.append(inst('G2', 'accessed is atime >= mtime', ok_a, 'accessed() is true exactly for atime = mtime and atime > mtime (same metadata)' if ok_a else
+                        'the read mark is not "atime >= mtime": truth table over (<,=,>) is %s' % (tab,)))
+        # the candidate keeps the directory entry whose metadata its times were read from
+        ents = [f for f in fields if f is not None and any(VAL[x][0] == 'sym' and VAL[x][1] == 'app' and VAL[x][2].endswith('::next') for x in values.subs(f))
+                and not any(VAL[x][0] == 'sym' and VAL[x][1] == 'app' and 'etadata' in VAL[x][2] for x in values.subs(f))]
+        metas_of = {x for f in fields if f is not None for x in values.subs(f) if VAL[x][0] == 'sym' and VAL[x][1] == 'app' and VAL[x][2] in ('std::fs::DirEntry::metadata', 'std::fs::metadata', 'std::fs::symlink_metadata')}
+        together = bool(ents) and all(any(e_ in values.subs(m) for e_ in ents) for m in metas_of) and bool(metas_of)
+        out.append(inst('G2', 'entry and times belong together', together,
+                        'the candidate keeps the directory entry its times were read from' if together else
+                        'the candidate\'s times do not come from the metadata of the directory entry it keeps'))
     return out
 
 
@@ -181,7 +192,8 @@ def g4(ctx):
     out.append(inst('G4', 'reprieved entries are re-stamped', ok2, 'every re-stamp targets a file name taken from to_move_back only' if ok2 else
                     'a re-stamp targets something other than an element of to_move_back, or is not a full (atime, mtime) stamp'))
     nexts = q.edges(lambda ev: ev['k'] == 'ext' and ev['path'].endswith('::next') and plan_fields(ev['args'][0]))
-    okf = bool(nexts) and all(q.E[e][2]['path'] == '<std::vec::IntoIter as std::iter::Iterator>::next' and
+    # (directly in a `for`, or through a generic `I: Iterator` when the loop is written with an iterator driver)
+    okf = bool(nexts) and all(q.E[e][2]['path'] in ('<std::vec::IntoIter as std::iter::Iterator>::next', 'std::iter::Iterator::next') and
                               not any(VAL[s][0] == 'sym' and VAL[s][1] == 'app' and 'rev' in VAL[s][2].lower() for s in values.subs(q.E[e][2]['args'][0])) for e in nexts)
     out.append(inst('G4', 'plan order', okf, 'both plan vectors are walked front to back' if okf else
                     'a plan vector is not applied in plan order (%s)' % sorted({q.E[e][2]['path'] for e in nexts})))
